@@ -6,6 +6,8 @@ PLAN = {
     'C05': ['harness.c04_roundtrip'],
     'C06': ['harness.c06_decoder'],
     'C08': ['harness.c08_validators'],
+    'C13': ['harness.c13_privacy'],
+    'C14': ['harness.c14_client'],
     'C18': ['harness.c18_paths', 'harness.c18_emit'],
     'C19': ['harness.c19_filter'],
 }
@@ -13,6 +15,8 @@ PLAN = {
 NEEDS_FIXTURES = {
     'harness.c04_roundtrip': True,
     'harness.c06_decoder': True,
+    'harness.c13_privacy': True,
+    'harness.c14_client': True,
 }
 
 
